@@ -310,8 +310,8 @@ pub fn property() -> Property {
             "algorithm names are recognised case-insensitively (C13)",
         ],
         streams: vec![
-            random_stream("texts", "interleaved checksum/size lines mixed with noise", case_strategy, |t| t.pick(80_000, 1_000_000), check),
-            random_stream("names", "patch / distfile classification of generated names", name_strategy, |t| t.pick(40_000, 500_000), check_name),
+            random_stream("texts", "interleaved checksum/size lines mixed with noise", case_strategy, |t| t.pick(80_000, 4_000_000), check),
+            random_stream("names", "patch / distfile classification of generated names", name_strategy, |t| t.pick(40_000, 2_000_000), check_name),
         ],
         selfcheck: m::selfcheck,
         hang_is_violation: false,
